@@ -316,6 +316,34 @@ theorem call_verdict_agree (env : NameEnv) (d : DefArgs) (h : ParamsAgree env d)
     obtain ⟨hb, ha, hr⟩ := toBindSig_of_core hc
     simp [callView, hb, ha, hr]
 
+/-! ## 5b. the return type for every kind of function -/
+
+/-- The return component of the two signature routes for a header: value, "has a return annotation", errors. -/
+def RetAgree (env : NameEnv) (d : DefArgs) : Prop :=
+  (fromDef env d).map (fun s => (s.ret, s.hasRet, s.retErrs)) =
+    (fromRuntime env d).map (fun s => (s.ret, s.hasRet, s.retErrs))
+
+/-- **The return type agrees for every kind of function and every return annotation (partial in the
+hypotheses of `ParamsAgree` only).** Whenever the two routes agree on a header — `def`, `async def`
+(wrapped in `Coroutine[Any, Any, …]` by both routes, with or without a return annotation), async
+generator and generator (wrapped by neither) — they agree on the return component. -/
+theorem ret_agree (env : NameEnv) (d : DefArgs) (h : ParamsAgree env d) : RetAgree env d := by
+  unfold ParamsAgree at h
+  unfold RetAgree
+  cases h1 : fromDef env d <;> cases h2 : fromRuntime env d <;> simp only [h1, h2, Option.map_none, Option.map_some] at h ⊢
+  · simp at h
+  · simp at h
+  · rename_i s t
+    have hc : s.core = t.core := by simpa using h
+    simp only [SigOut.core, Prod.mk.injEq] at hc
+    simp [hc.2.1, hc.2.2.1, hc.2.2.2]
+
+/-- **The branch structure the model relies on (regenerated obligation).** The places where the live
+`from_signature` and `compute_value_of_function` assign the return type, with their branch
+conditions, are the registered ones; in particular `make_coro_type` is applied under `is_async`
+alone. -/
+theorem return_branches_registered : returnBranches = registeredReturnBranches := by decide
+
 /-! ## 6. several modules, one Checker -/
 
 /-- **A function's runtime signature does not depend on what the Checker did before (full).** For every
@@ -413,5 +441,17 @@ theorem regress_shadowedName :
       (s.params.map (fun p => match p.ann with | .typed c => c | _ => 0), match s.ret with | .typed c => c | _ => 0)) =
       some ([24], 26) :=
   ⟨params_agree_partial exEnv exShadow (by decide) rfl rfl (by decide) (by decide), by decide +kernel⟩
+
+/-- non-vacuity: an unannotated coroutine function gets `Coroutine[Any, Any, Any]` from both routes, an
+annotated one `Coroutine[Any, Any, int]`; an async generator and a generator are not wrapped -/
+example :
+    ([FnKind.coro, .asyncGen, .gen, .plain].map fun k =>
+      (fromRuntime env0 { hdr0 with kind := k }).map (·.ret)).map (fun r => r.map fun t =>
+        match t with | .generic c [_, _, _] => c | _ => 0) = [some 900, some 0, some 0, some 0] ∧
+    (fromDef env0 { hdr0 with kind := .coro, returns := some (.cls C.int) }).map (fun s =>
+        match s.ret with | .generic c [_, _, .typed i] => (c, i) | _ => (0, 0)) = some (900, 1) ∧
+    (fromRuntime env0 { hdr0 with kind := .coro, returns := some (.cls C.int) }).map (fun s =>
+        match s.ret with | .generic c [_, _, .typed i] => (c, i) | _ => (0, 0)) = some (900, 1) := by
+  decide +kernel
 
 end Pya.C13
